@@ -258,7 +258,7 @@ impl Part for Select {
         "C05"
     }
     fn rule(&self) -> String {
-        "Named struct S { a, m, b }, 1-3 named counterparts, all 12 conversion kinds requested for each; on member m a random set of member instructions built cell by cell (21 mapping names x {default, dedicated to each counterpart}, exact covers so that no two instructions tie in a (kind, fallibility, dedication) cell, plus ghost / ghost_owned / ghost_ref x dedication), each carrying a unique integer marker in its expression (and half of them a unique rename), in random order and spelling. Oracle 1: an independent select(kind, fallible, T) implementing the chain as the property states it; in every one of the 12 x n impls exactly the winner's marker is present (none when a ghost skips the field). Oracle 2 (non-interference): one more instruction is added in a free cell; every impl whose winner is unchanged must be token-identical before and after. Non-trivial = >= 3 instructions on m and >= 1 impl decided by a fallback level; distinct by input text.".into()
+        "Named struct S { a, m, b }, 1-3 named counterparts, all 12 conversion kinds requested for each; on member m a random set of member instructions built cell by cell (21 mapping names x {default, dedicated to each counterpart}, exact covers so that no two instructions tie in a (kind, fallibility, dedication) cell, plus ghost / ghost_owned / ghost_ref x dedication), each carrying a unique integer marker in its expression (and half of them a unique rename), in random order and spelling. Oracle 1: an independent select(kind, fallible, T) implementing the chain as the property states it; in every one of the 12 x n impls exactly the winner's marker is present (none when a ghost skips the field). Oracle 2 (non-interference): one more instruction is added in a free cell; every impl whose winner is unchanged must be token-identical before and after. Non-trivial = >= 3 instructions on m and >= 1 impl decided by a fallback level; distinct by input text. Oracle 4 (1 case in 6): a default #[child(zz)] that every Into-capable counterpart shadows with its own dedicated #[child(T| a)] changes nothing for those counterparts (with every counterpart shadowing it: the whole outcome; with one From-only counterpart left to use it: the input stays accepted and the shadowing counterparts' impls are unchanged).".into()
     }
     fn cases(&self, tier: Tier) -> usize {
         match tier {
@@ -390,6 +390,52 @@ impl Part for Select {
                             verdict: ctx.fail_or_known("C05", None, "a default #[ghost] that every counterpart shadows with a dedicated one changes the outcome".into(), json!({"before_input": t1, "after_input": t2, "after": expand_tokens(&d2).map(|x| x.to_string()).unwrap_or_else(|e| e.short())})),
                         };
                     }
+                }
+            }
+        }
+        // Oracle 4: the same for #[child]: a default #[child(zz)] that every Into-capable counterpart shadows with its own dedicated
+        // #[child(T| a)] is selected by none of them. With every counterpart shadowing it the outcome must not change at all; with
+        // one From-only counterpart left to use it, the input stays accepted and the impls of the shadowing counterparts stay
+        // what they were.
+        if t.chance(1, 6) {
+            let from_only = g.cps.len() >= 2 && t.coin();
+            let shadowing: Vec<&String> = if from_only { g.cps[..g.cps.len() - 1].iter().collect() } else { g.cps.iter().collect() };
+            let mut head = String::new();
+            let mut member = String::new();
+            for c in &shadowing {
+                head.push_str(&format!("#[{}({})] #[child_parents({}| a: NA)] ", t.pick(&["into", "map", "owned_into", "ref_into", "into_existing"]), c, c));
+                member.push_str(&format!("#[child({}| a)] ", c));
+            }
+            if from_only {
+                head.push_str(&format!("#[from({})] ", g.cps[g.cps.len() - 1]));
+            }
+            let at_front = t.coin();
+            let with = if at_front { format!("#[child(zz)] {}", member) } else { format!("{}#[child(zz)] ", member) };
+            let t1 = format!("{}struct S {{ {}x: i32, y: i32 }}", head, member);
+            let t2 = format!("{}struct S {{ {}x: i32, y: i32 }}", head, with);
+            if let (crate::props::util::Exp::Ok { items: i1, .. }, o2) = (crate::props::util::expand_items(&t1), crate::props::util::expand_items(&t2)) {
+                labels.push("shadowed-default-child-checked".into());
+                let keyed = |items: &[ImplItem]| -> Vec<String> {
+                    let mut v: Vec<String> = items.iter().filter(|i| i.key().map_or(false, |k| shadowing.iter().any(|c| k.counterpart.replace(' ', "") == c.replace(' ', "")))).map(|i| i.text.clone()).collect();
+                    v.sort();
+                    v
+                };
+                let same = match &o2 {
+                    crate::props::util::Exp::Ok { items: i2, .. } => keyed(&i1) == keyed(i2),
+                    _ => false,
+                };
+                if !same {
+                    let after = match &o2 {
+                        crate::props::util::Exp::Ok { text, .. } => text.clone(),
+                        crate::props::util::Exp::Other(o) => o.short(),
+                        _ => "unsplittable output".to_string(),
+                    };
+                    return CaseReport {
+                        key: text.clone(),
+                        nontrivial,
+                        labels,
+                        verdict: ctx.fail_or_known("C05", None, "a default #[child] that a counterpart shadows with a dedicated one changes that counterpart's outcome".into(), json!({"before_input": t1, "after_input": t2, "after": after})),
+                    };
                 }
             }
         }
